@@ -12,6 +12,9 @@ Parts:
               nesting levels 0/1/2/4 by argument, by pragma and both, over every (message, query)
               of a small pool; level relations L1 = concat(L2), L0 = first(L1) or None,
               L2 = per-subset flatten(L4), L4 = DataQuerent result.
+  run-shapes  the scope in which a substituted / injected name is referenced (top level, function, lambda,
+              generator expression, comprehension, class body, method, default argument, callback) x name x
+              exec / eval mode, one ScriptRunner run on 1..3 messages in every order.
 Oracle: mc.ref.scriptlang.
 """
 from mc import REPO
@@ -110,6 +113,8 @@ def run_case(case):
     from pybufrkit.mdquery import MetadataQuerent, MetadataExprParser
     viol = []
     kind = case['kind']
+    if kind == 'shape':
+        return run_shape(case)
     if kind == 'mdonly':
         # exprs: list of expressions placed at embed/quote/comment positions
         parts = []
@@ -191,6 +196,89 @@ def generated_message(counts, compressed):
         return [v] * nsub if compressed else v
     buf, subs, notes, nb = codec.encode(B, D, descs, nsub, compressed, ch)
     return message.build(message.Spec(descs=descs, nsub=nsub, compressed=compressed), buf)[0]
+
+
+# ------------------------------------------------------------------------------------------
+# where in the script a substituted / injected name is used: the binding must hold for the whole script, whatever scope
+# the reference sits in; and one runner used for several messages must bind the names anew for each
+SHAPES_EXEC = [
+    ('top', 'r = X\n'),
+    ('def', 'def f():\n    return X\nr = f()\n'),
+    ('lambda', 'r = (lambda: X)()\n'),
+    ('genexp', 'r = list(X for _ in (0,))[0]\n'),
+    ('listcomp', 'r = [X for _ in (0,)][0]\n'),
+    ('dictcomp', "r = {k: X for k in 'a'}['a']\n"),
+    ('nested-def', 'def f():\n    def g():\n        return X\n    return g()\nr = f()\n'),
+    ('class-body', 'class K:\n    v = X\nr = K.v\n'),
+    ('method', 'class K:\n    def m(self):\n        return X\nr = K().m()\n'),
+    ('default-arg', 'def f(v=X):\n    return v\nr = f()\n'),
+    ('callback', 'import functools\nr = functools.reduce(lambda a, b: X, [0, 1])\n'),
+    ('conditional', 'r = None\nif True:\n    for _ in (0,):\n        r = X\n'),
+    ('def-after-use', 'r0 = X\ndef f():\n    return X\nr = f() if r0 == f() or True else None\n'),
+    ('two-names', 'def f():\n    return (X, PBK_FILENAME)\nr = f()[0]\n'),
+]
+SHAPES_EVAL = [
+    ('top', 'X'),
+    ('lambda', '(lambda: X)()'),
+    ('genexp', 'next(X for _ in (0,))'),
+    ('listcomp', '[X for _ in (0,)][0]'),
+    ('any', '[v for v in (X,) if any(True for _ in (X,))][0]'),
+    ('filter', 'list(filter(lambda v: True, [X]))[0]'),
+]
+SHAPE_NAMES = ['${001001}', '${%n_subsets}', '${ /001001 }', 'PBK_FILENAME', 'PBK_BUFR_MESSAGE']
+
+
+def run_shape(case):
+    from pybufrkit.decoder import Decoder
+    from pybufrkit.script import ScriptRunner
+    from pybufrkit.dataquery import DataQuerent, NodePathParser
+    viol = []
+    mode, shape, name = case['mode'], case['shape'], case['name']
+    text = dict(SHAPES_EXEC if mode == 'exec' else SHAPES_EVAL)[shape].replace('X', name)
+    msgs = []
+    for i, counts in enumerate(case['messages']):
+        msgs.append(Decoder().process(generated_message(counts, False), file_path='F%d.bufr' % i))
+
+    def want(i):
+        m = msgs[i]
+        if name == 'PBK_FILENAME':
+            return 'F%d.bufr' % i
+        if name == 'PBK_BUFR_MESSAGE':
+            return m
+        if '%' in name:
+            return m.n_subsets.value
+        return flat(DataQuerent(NodePathParser()).query(m, '/001001').all_values())
+    try:
+        sr = ScriptRunner(text, mode=mode)
+    except Exception as e:
+        return 'bad', [{'sig': 'shape-compile-raises:' + type(e).__name__, 'detail': '%r: %r' % (text, e)}]
+    for step, i in enumerate(case['order']):
+        try:
+            res = sr.run(msgs[i])
+            got = res.get('r', '<r unbound>') if mode == 'exec' else res
+        except Exception as e:
+            viol.append({'sig': 'shape-run-raises:%s|%s|%s' % (type(e).__name__, mode, 'first' if step == 0 else 'later'),
+                         'detail': 'script %r (%s mode), run %d on message %d: %r' % (text, mode, step, i, e)})
+            break
+        w = want(i)
+        ok = (got is w) if name == 'PBK_BUFR_MESSAGE' else (got == w)
+        if not ok:
+            viol.append({'sig': 'shape-value|%s|%s' % (mode, 'first' if step == 0 else 'later'),
+                         'detail': 'script %r (%s mode), run %d on message %d: %r, expected %r' % (text, mode, step, i, str(got)[:120], str(w)[:120])})
+            break
+    return 'shape:%s:%s' % (mode, shape), viol
+
+
+def build_shape_cases(tier):
+    cases = []
+    msgs = [[1, 2], [2], [0, 1, 1]]
+    orders = [[0], [0, 1], [1, 0, 1], [0, 2, 0]] if tier == 'quick' else [list(o) for n in (1, 2, 3) for o in itertools.product(range(3), repeat=n)]
+    for mode, shapes in (('exec', SHAPES_EXEC), ('eval', SHAPES_EVAL)):
+        for shape, _ in shapes:
+            for name in SHAPE_NAMES:
+                for order in orders:
+                    cases.append({'kind': 'shape', 'mode': mode, 'shape': shape, 'name': name, 'messages': msgs, 'order': order})
+    return cases
 
 
 GEN_COUNTS = [(0, 2), (2, 0), (1, 1), (0, 0), (0, 0, 1), (3,), (0,)]
@@ -363,6 +451,15 @@ def main(tier, seed):
     p.n['nodes'], p.n['edges'] = len(cases) + 1, len(cases)
     p.sample(cases[0]); p.sample(cases[-1])
     rep.add_part('run', p, bounds={'files': POOL_FILES, 'levels': [None, 0, 1, 2, 4], 'cases': len(cases)})
+    cases = build_shape_cases(tier)
+    p = merge_all(run_shards(run_cases, [cases[i::32] for i in range(32)]))
+    p.n['nodes'], p.n['edges'] = len(cases) + 1, len(cases)
+    p.sample(cases[0]); p.sample(cases[-1])
+    rep.add_part('run-shapes', p, bounds={'shapes_exec': [n for n, _ in SHAPES_EXEC], 'shapes_eval': [n for n, _ in SHAPES_EVAL],
+                                          'names': SHAPE_NAMES, 'cases': len(cases),
+                                          'runs_per_runner': 'orders of 1..3 runs over 3 messages on one ScriptRunner'},
+                 rule='one case = one script (scope in which the substituted / injected name is used x name x exec / eval mode) '
+                      'run on a sequence of messages with one ScriptRunner; every run must yield the value for ITS message')
     p = run_cli_part(None)
     p.n['nodes'], p.n['edges'] = p.n['exec'] + 1, p.n['exec']
     rep.add_part('cli', p, bounds={'invocations': p.n['exec'], 'files_per_invocation': 2, 'script_given_as': ['argument', '-f file', 'stdin'],
